@@ -6,6 +6,7 @@ import (
 	"hash/fnv"
 	"math/rand"
 	"sort"
+	"time"
 )
 
 // ---- the replayable plan -------------------------------------------------
@@ -185,6 +186,7 @@ type PolicyChooser struct {
 	MaxQ    int
 	SwitchP float64
 	Jumps   bool
+	Zone    *time.Location // when set: some jumps land around the next daylight-saving transition of this zone
 	last    int
 	rrPos   int
 	prio    []int // PCT priorities
@@ -296,6 +298,19 @@ func (c *PolicyChooser) Next(runnable []int) SchedEntry {
 	e := SchedEntry{Task: pick, Quantum: q}
 	if c.Jumps && c.R.Bool(0.5) {
 		e.JumpNs = clockJumps[c.R.Intn(len(clockJumps))]
+		if c.Zone != nil && c.R.Bool(0.6) {
+			// land shortly before, on, or inside the hours after the next transition of the run's zone
+			if _, end := time.Now().In(c.Zone).ZoneBounds(); !end.IsZero() {
+				t := end.Add(time.Duration(c.R.PickInt([]int{-90, -30, -1, 0, 1, 15, 30, 59, 61, 90})) * time.Minute)
+				if d := time.Until(t); d > 0 {
+					e.JumpNs = int64(d)
+				}
+			}
+		}
+		// the fake clock of a synctest bubble is an int64 of nanoseconds: stay far below its end (year 2262)
+		if time.Now().Add(time.Duration(e.JumpNs)).Year() > 2200 {
+			e.JumpNs = 0
+		}
 	}
 	return e
 }
